@@ -108,6 +108,7 @@ type Exec struct {
 	crcMemo           map[string]*term.Term
 	crcUses           []crcUse
 	needExact         bool
+	refineFail        []string
 	recoverFrame      *frame
 	recovered         []string
 	trivAsserts       int
